@@ -63,7 +63,7 @@ func (c conf) GetInt(k string) int {
 	i, _ := c[k].(int)
 	return i
 }
-func (c conf) GetStringSlice(k string) []string      { return nil }
+func (c conf) GetStringSlice(k string) []string   { return nil }
 func (c conf) SetDefault(k string, v interface{}) {}
 
 // ---------------------------------------------------------------- recording sink
@@ -100,7 +100,7 @@ func (r *recSink) rel(k string) string {
 	return k
 }
 
-func (r *recSink) GetName() string { return r.name }
+func (r *recSink) GetName() string                                                  { return r.name }
 func (r *recSink) Initialize(configuration util.Configuration, prefix string) error { return nil }
 func (r *recSink) GetSinkToDirectory() string {
 	if r.inner != nil {
@@ -225,6 +225,26 @@ type node struct {
 	C string   `json:"c"`
 }
 
+// render: the bytes of a sink file as a string TLC can compare: letters and digits as they
+// are, a zero byte as "0", anything else as "?" (at most 4096 bytes, then "+<length>")
+func render(b []byte) string {
+	out := make([]byte, 0, len(b))
+	for i, x := range b {
+		if i == 4096 {
+			return string(out) + fmt.Sprintf("+%d", len(b))
+		}
+		switch {
+		case x == 0:
+			out = append(out, '0')
+		case x >= 'a' && x <= 'z', x >= 'A' && x <= 'Z', x >= '1' && x <= '9':
+			out = append(out, x)
+		default:
+			out = append(out, '?')
+		}
+	}
+	return string(out)
+}
+
 func listTree(root string) []interface{} {
 	res := []interface{}{}
 	var paths []string
@@ -246,10 +266,7 @@ func listTree(root string) []interface{} {
 			n["k"] = "d"
 		} else {
 			b, _ := ioutil.ReadFile(p)
-			if len(b) > 64 {
-				b = b[:64]
-			}
-			n["c"] = string(b)
+			n["c"] = render(b)
 		}
 		res = append(res, n)
 	}
@@ -262,6 +279,7 @@ func main() {
 	o := tr.ParseFlags()
 	w := tr.NewWriter(o.Out)
 	defer w.Close()
+	defer cleanupBackup()
 	for _, ex := range tr.ReadScript(o.Script) {
 		runExec(w, ex)
 	}
@@ -280,7 +298,18 @@ func runExec(w *tr.Writer, ex []tr.Ev) {
 		runSync(w, ex, src, dst, mt1, mt2)
 		return
 	}
+	if mode == "backup" {
+		runBackup(w, ex, src, dst, mt1, mt2)
+		return
+	}
 
+	// the source filer of the sink: nobody, unless the execution has chunked entries
+	// (then the kit's real filer, which answers the volume lookups)
+	filerHTTP, filerGrpc := "127.0.0.1:1", "127.0.0.1:1"
+	if hasChunked(ex) {
+		k := ensureKit()
+		filerHTTP, filerGrpc = k.FilerAddr, k.FilerGrpc
+	}
 	rs := &recSink{name: tr.S(cfg, "sname"), dir: dst, incr: incr}
 	tmp := ""
 	if tr.S(cfg, "sink") == "local" {
@@ -303,14 +332,14 @@ func runExec(w *tr.Writer, ex []tr.Ev) {
 	switch mode {
 	case "replicate":
 		// the constructor filer.replicate uses: source.filer.directory from the configuration
-		r := replication.NewReplicator(conf{"source.filer.grpcAddress": "127.0.0.1:1", "source.filer.directory": src}, "source.filer.", rs)
+		r := replication.NewReplicator(conf{"source.filer.grpcAddress": filerGrpc, "source.filer.directory": src}, "source.filer.", rs)
 		apply = func(key string, resp *filer_pb.SubscribeMetadataResponse) error {
 			return r.Replicate(context.Background(), key, resp.EventNotification)
 		}
 	case "syncfn":
 		// as doFilerBackup / doSubscribeFilerMetaChanges do
 		fsrc := &source.FilerSource{}
-		fsrc.DoInitialize("127.0.0.1:1", "127.0.0.1:1", src, false)
+		fsrc.DoInitialize(filerHTTP, filerGrpc, src, false)
 		rs.SetSourceFiler(fsrc)
 		fn := command.VerifGenProcessFunction(src, rs.GetSinkToDirectory(), rs, false)
 		apply = func(key string, resp *filer_pb.SubscribeMetadataResponse) error { return fn(resp) }
@@ -319,10 +348,13 @@ func runExec(w *tr.Writer, ex []tr.Ev) {
 	}
 
 	for _, e := range ex[1:] {
-		if tr.S(e, "ev") != "apply" {
+		if tr.S(e, "ev") != "apply" && tr.S(e, "ev") != "capply" {
 			continue
 		}
 		key, resp, sigs := buildEvent(e, mt1, mt2)
+		if tr.S(e, "ev") == "capply" {
+			chunkify(e, resp, mt1, mt2)
+		}
 		rs.calls = []interface{}{}
 		rs.found = tr.B(e, "found")
 		var err error
